@@ -105,3 +105,33 @@ package obfs4
 //@   assert_at (net.Conn).Write [C09:write_le_mss] conn.iatMode != 0 ==> 1 <= len(arg1) && len(arg1) <= 1448
 //@   ensures [C01:all_or_error] err == nil ==> n == len(b)
 //@   ensures txInv(conn)
+
+// ---- handshake (handshake_ntor.go) ----
+//@ func findMarkMac(mark, buf, startPos, maxPos, fromTail) (pos)
+//@   serves C02 C04 C06 C10
+//@   panics_if len(mark) != 16
+//@   requires 0 <= startPos && startPos <= maxPos && maxPos <= 8192
+//@   ensures [C06:mark_bounds] pos == -1 || (startPos <= pos && pos + 32 <= len(buf) && pos + 32 <= maxPos)
+//@   ensures [C02:mark_matches] pos >= 0 ==> sub(seq(buf), pos, pos + 16) == seq(mark)
+//@   ensures [C04:tail_only] pos >= 0 && fromTail ==> pos == min(len(buf), maxPos) - 32
+
+//@ pred chsInv(hs) := hs != nil && hs.mac != nil && hs.mac.hsize == 32 && hs.mac.halg == 1 && kpOK(hs.keypair) && hs.nodeID != nil && hs.serverIdentity != nil
+//@       && hs.mac.hkey == cat(seq(hs.serverIdentity), seq(hs.nodeID))
+//@       && (hs.serverRepresentative != nil && hs.serverAuth != nil ==> len(hs.serverMark) == 16 && seq(hs.serverMark) == sub(HASH(1, hs.mac.hkey, seq(hs.serverRepresentative)), 0, 16))
+
+//@ func (*clientHandshake).parseServerHandshake(hs, resp) (n, seed, err)
+//@   serves C02 C06 C10
+//@   requires chsInv(hs) && labelsOK() && outside(resp, hs) && outside(resp, hs.mac)
+//@   modifies hs.serverRepresentative, hs.serverAuth, hs.serverMark, hs.mac.absorbed
+//@   ghost hour := seq(hs.epochHour)
+//@   ghost rep0 := hs.serverRepresentative
+//@   ghost auth0 := hs.serverAuth
+//@   ensures [C02:state] chsInv(hs)
+//@   ensures [C06:first_64_bytes_are_Y_and_AUTH] (rep0 == nil || auth0 == nil) && hs.serverRepresentative != nil ==> seq(hs.serverRepresentative) == sub(seq(resp), 0, 32) && seq(hs.serverAuth) == sub(seq(resp), 32, 64) && fresh(hs.serverRepresentative) && fresh(hs.serverAuth)
+//@   ensures [C06:keeps_first_64_bytes] rep0 != nil && auth0 != nil ==> hs.serverRepresentative == rep0 && hs.serverAuth == auth0 && unchanged(seq(rep0), seq(auth0))
+//@   ensures [C02:consumed] err == nil ==> 96 <= n && n <= len(resp) && n <= 8192 && len(seed) == 32 && hs.serverRepresentative != nil && hs.serverAuth != nil
+//@   ensures [C02:mark_checked] err == nil ==> sub(seq(resp), n - 32, n - 16) == sub(HASH(1, hs.mac.hkey, seq(hs.serverRepresentative)), 0, 16)
+//@   ensures [C02:mac_checked] err == nil ==> sub(seq(resp), n - 16, n) == sub(HASH(1, hs.mac.hkey, cat(sub(seq(resp), 0, n - 16), hour)), 0, 16)
+//@   ensures [C02:ntor_ok] err == nil ==> !allzero(X25519(seq(hs.keypair.private), ELL2(seq(hs.serverRepresentative)))) && !allzero(X25519(seq(hs.keypair.private), seq(hs.serverIdentity)))
+//@   ensures [C02:auth_checked] err == nil ==> seq(hs.serverAuth) == ntorAuth(cat(X25519(seq(hs.keypair.private), ELL2(seq(hs.serverRepresentative))), X25519(seq(hs.keypair.private), seq(hs.serverIdentity))), seq(hs.serverIdentity), seq(hs.keypair.public), ELL2(seq(hs.serverRepresentative)), seq(hs.nodeID))
+//@   ensures [C02:seed_is_key_seed] err == nil ==> seq(seed) == ntorKeySeed(cat(X25519(seq(hs.keypair.private), ELL2(seq(hs.serverRepresentative))), X25519(seq(hs.keypair.private), seq(hs.serverIdentity))), seq(hs.serverIdentity), seq(hs.keypair.public), ELL2(seq(hs.serverRepresentative)), seq(hs.nodeID))
